@@ -17,19 +17,8 @@ def legal(ws, x):
         loops = [i for i, w in enumerate(inner) if w in ("loop", "while", "for")]
         if not loops:
             return False, False
-        # V10: the exit must not leave a `try` body
-        crossed = inner[loops[-1] + 1:]
-        return True, "try" not in crossed
-    if x == "return":
-        return True, "try" not in inner
-    if x == "throw":
-        # nearest enclosing try body (dynamically): search outward
-        for i in range(len(ws) - 1, -1, -1):
-            if ws[i] == "try":
-                # V11: a call between the try and the throw
-                return True, "call" not in ws[i + 1:]
-        return True, True          # uncaught
-    return True, True              # fatal error
+        return True, True
+    return True, True
 
 
 class Builder:
